@@ -1,0 +1,23 @@
+//! Verification hook (only compiled with `--cfg datacake_verif`): an injectable wall clock
+//! for [crate::HLCTimestamp], so that stalls, backward jumps and per-node skew can be generated.
+use std::cell::RefCell;
+use std::rc::Rc;
+use std::time::Duration;
+
+/// Maps the node id of the asking clock to the wall clock reading it should see
+/// (time since the datacake epoch), `None` falls back to the system clock.
+pub type WallFn = Rc<dyn Fn(u8) -> Option<Duration>>;
+
+thread_local! {
+    static WALL: RefCell<Option<WallFn>> = RefCell::new(None);
+}
+
+/// Installs (or removes) the wall clock override for the current thread.
+pub fn set_wall(f: Option<WallFn>) {
+    WALL.with(|w| *w.borrow_mut() = f);
+}
+
+pub(crate) fn wall(node: u8) -> Option<Duration> {
+    let f = WALL.with(|w| w.borrow().clone());
+    f.and_then(|f| f(node)).map(crate::timestamp::verif_truncate)
+}
